@@ -500,4 +500,93 @@ def feeBump (M : MulDiv) (r : Req) (rc : Rec) (height : Int) (mp : List Ans) (pu
             ⟨{ rc with ff := some g', live := false }, ⟨.failed, some e, g'.cur, 0⟩, em⟩
   | _, _ => ⟨rc, noRes, []⟩
 
+/-! ## BudgetAggregator / BudgetInputSet (one level above the publisher)
+
+`sweep/aggregator.go` (`ClusterInputs`, `filterInputs`, `sortInputs`, `splitOnLocktime`,
+`createInputSets`) and `sweep/tx_input_set.go` (`Budget`, `StartingFeeRate`).  The weight `wu`
+of an input (`InputSize*4 + witness size`) and "its required output is dust" are parameters
+taken from the implementation.  No aux sweeper, no exclusive groups. -/
+
+/-- a pending input of the sweeper as the aggregator sees it. -/
+structure PInp where
+  idx : Nat
+  budget : Int
+  deadline : Int
+  /-- `params.StartingFeeRate`: the rate already offered for this input (retry / user bump). -/
+  start : Option Int
+  immediate : Bool
+  lt : Option Nat
+  wu : Nat
+  reqDust : Bool
+deriving Repr, DecidableEq
+
+/-- `BudgetAggregator.filterInputs` for min relay fee `relay`. -/
+def filterInputs (relay : Int) (l : List PInp) : List PInp :=
+  l.filter fun i =>
+    !(decide (i.budget < feeForWeight relay i.wu)) &&
+    !(decide (i.budget < feeForWeight (i.start.getD 0) i.wu)) && !i.reqDust
+
+/-- loop of `BudgetInputSet.StartingFeeRate`: `m` is `maxFeeRate`, `acc` is `startingFeeRate`. -/
+def setStartLoop : List PInp → Int → Option Int → Option Int
+  | [], _, acc => acc
+  | i :: rest, m, acc =>
+    let r := i.start.getD 0
+    if r > m then setStartLoop rest r (some r) else setStartLoop rest m acc
+
+/-- `BudgetInputSet.StartingFeeRate()`. -/
+def setStart (l : List PInp) : Option Int := setStartLoop l 0 none
+
+/-- `BudgetInputSet.Budget()` (no extra budget). -/
+def setBudget (l : List PInp) : Int := (l.map (·.budget)).foldl (· + ·) 0
+
+/-- the `less` function of `sortInputs`: forced inputs first, then higher budget first. -/
+def sortBefore (a b : PInp) : Bool :=
+  if a.immediate == b.immediate then decide (a.budget > b.budget) else a.immediate
+
+/-- `sortInputs` (Go's `sort.Slice` is not stable: the model agrees with it when the keys are
+    pairwise different, which the harness guarantees). -/
+def sortInputs (l : List PInp) : List PInp := l.mergeSort (fun a b => !(sortBefore b a))
+
+/-- group a list by a key, groups in order of first occurrence, members in list order (what
+    appending to `map[key][]T` while iterating does, up to the order of the groups). -/
+def groupByKey {κ : Type} [DecidableEq κ] (key : PInp → κ) : Nat → List PInp → List (List PInp)
+  | 0, _ => []
+  | _, [] => []
+  | fuel + 1, x :: rest =>
+    (x :: rest.filter (fun y => key y == key x)) ::
+      groupByKey key fuel (rest.filter (fun y => !(key y == key x)))
+
+/-- append `extra` to the first group whose head has locktime `m` (`[extra]` if there is none). -/
+def mergeInto (m : Option Nat) (extra : List PInp) : List (List PInp) → List (List PInp)
+  | [] => [extra]
+  | g :: gs => if (g.head?.bind (·.lt)) == m then (g ++ extra) :: gs else g :: mergeInto m extra gs
+
+/-- `splitOnLocktime`: one group per required locktime; inputs without locktime join the group
+    of the LAST locktime input (in sorted order), or form the only group. -/
+def lockGroups (l : List PInp) : List (List PInp) :=
+  let withLt := l.filter (·.lt.isSome)
+  let noLt := l.filter (fun i => !i.lt.isSome)
+  mergeInto ((withLt.getLast?).bind (·.lt)) noLt (groupByKey (·.lt) withLt.length withLt)
+
+/-- the split of `createInputSets`: sets of at most `n` inputs, in order. -/
+def chunks (n : Nat) : Nat → List PInp → List (List PInp)
+  | 0, _ => []
+  | fuel + 1, l =>
+    if l.isEmpty then []
+    else if l.length > n then l.take n :: chunks n fuel (l.drop n)
+    else [l]
+
+structure InSet where
+  deadline : Int
+  inputs : List PInp
+deriving Repr, DecidableEq
+
+/-- `BudgetAggregator.ClusterInputs` (the order of the resulting sets is map-iteration order in
+    Go, so it is only meaningful as a multiset). -/
+def clusterInputs (relay : Int) (maxInputs : Nat) (l : List PInp) : List InSet :=
+  let f := filterInputs relay l
+  (groupByKey (·.deadline) f.length f).flatMap fun g =>
+    (lockGroups (sortInputs g)).flatMap fun lg =>
+      (chunks (max maxInputs 1) (lg.length + 1) lg).map fun c => ⟨(g.head?.map (·.deadline)).getD 0, c⟩
+
 end LndModel.C18
